@@ -255,6 +255,7 @@ inductive HOp where
   | dec | inc | clear | get
   | moveKeepNew            -- move-construct a new buffer, continue with the new one
   | moveKeepOld            -- move-construct a new buffer, continue with the moved-from one
+  | moveSelf               -- `h = std::move(h)` through a reference: the guard `if (this == &history_buffer) return *this;` keeps everything
   | moveAssignFrom (S2 k w : Nat)   -- `*this = std::move(other)`, `other` a buffer of ANOTHER state size `S2` holding `k` vectors (window `w`, 0 = default); continue with this one
   | moveAssignInto (S2 k w : Nat)   -- `other = std::move(*this)` into such a buffer; continue with `other`
 deriving Repr
@@ -310,6 +311,7 @@ def histStep (h : Hist) : HOp → W (Hist × String)
   | .get => do let s ← histGet h; pure (h, "g:" ++ s.str)
   | .moveKeepNew => pure (h, "m")
   | .moveKeepOld => pure (⟨0, 0, []⟩, "m")
+  | .moveSelf => pure (h, "m")
   -- move assignment hands over window_, state_size_ AND the stored vectors
   | .moveAssignFrom S2 k w => do let o ← otherHist S2 k w; pure (o, "m")
   | .moveAssignInto S2 k w => do let _ ← otherHist S2 k w; pure (h, "m")
